@@ -93,8 +93,12 @@ def json_numpy_or_set_obj_hook(
     """
     if isinstance(dct, dict) and '_is_numpy_array' in dct:
         if dct['_is_numpy_array'] is True:
-            data = dct['data']
-            return np.array(data)
+            data = np.array(dct['data'], dtype=dct.get('dtype'))
+            if 'shape' in dct:
+                # The nested list cannot tell the dimensions after a
+                # zero-sized one (an array with shape (0, 3) is encoded as [])
+                data = data.reshape(dct['shape'])
+            return data
 
         raise ValueError(  # pragma: no cover
             'Json representation contains the "_is_numpy_array" key '
